@@ -416,6 +416,63 @@ func concRun(ctx *hx.Ctx, cfg concCfg, seed uint64) {
 		return
 	}
 
+	if cfg.closeMode == 3 {
+		// Start and Close back to back (the consumer goroutine may not have been scheduled yet),
+		// producers racing with both, and more pushes after Close has returned: nothing may run
+		// once Close has returned.
+		var wg3 sync.WaitGroup
+		startGate := make(chan struct{})
+		for p := 0; p < cfg.producers; p++ {
+			wg3.Add(1)
+			go func(p int) {
+				defer wg3.Done()
+				<-startGate
+				for k := 0; k < cfg.perProducer; k++ {
+					ap.Push(mkcb(uint64(p+1)*1000 + uint64(k)))
+					if k%2 == 0 {
+						runtime.Gosched()
+					}
+				}
+			}(p)
+		}
+		close(startGate)
+		ap.Start()
+		done := make(chan struct{})
+		go func() {
+			ap.Close()
+			atomic.StoreInt32(&closeReturned, 1)
+			close(done)
+		}()
+		select {
+		case <-done:
+		case <-time.After(3 * time.Second):
+			ctx.Failf(-1, "conc-close-hang", desc, "Close right after Start did not return within 3s")
+			ctx.Eval()
+			return
+		}
+		for k := 0; k < 4; k++ {
+			ap.Push(mkcb(uint64(900000 + k)))
+		}
+		wg3.Wait()
+		time.Sleep(time.Duration(500+rng.Intn(1500)) * time.Microsecond)
+		runtime.Gosched()
+		ctx.Eval()
+		if n := atomic.LoadInt32(&execAfterClose); n > 0 {
+			ctx.Failf(-1, "conc-exec-after-close", desc, "%d callbacks started after Close (called right after Start) had returned", n)
+		}
+		mu.Lock()
+		seen3 := map[uint64]bool{}
+		for _, x := range executed {
+			if seen3[x] {
+				ctx.Failf(-1, "conc-exec-twice", desc, "item %d executed twice", x)
+			}
+			seen3[x] = true
+		}
+		mu.Unlock()
+		ctx.Kind(fmt.Sprintf("conc close=3 procs=%d", cfg.procs))
+		return
+	}
+
 	if !cfg.startLate {
 		ap.Start()
 	}
@@ -742,8 +799,10 @@ func main() {
 				cfg.perProducer = 1
 			}
 		}
-		m := r.Intn(10)
+		m := r.Intn(12)
 		switch {
+		case m >= 10:
+			cfg.closeMode = 3
 		case m < 5:
 		case m < 7:
 			cfg.errAt = r.Intn(cfg.producers*cfg.perProducer + 1)
